@@ -86,9 +86,11 @@ func VerifHarness_C20_Native() {
 	if verifDraws["str:scenario"] == "concurrent" { // scrape while several prove requests are in flight
 		// bursts of requests that complete together, a scrape after each burst: the gauge must read 0 whenever nothing is in flight
 		gaugeOK := true
-		for burst := 0; burst < 400 && gaugeOK; burst++ {
+		zerolog.SetGlobalLevel(zerolog.DebugLevel) // as deployed: whatever the handler chain logs takes its real time
+		for burst := 0; burst < 1500 && gaugeOK; burst++ {
+			nb := 2 + burst%2
 			done := make(chan int, 3)
-			for k := 0; k < 3; k++ {
+			for k := 0; k < nb; k++ {
 				go func() {
 					req, _ := http.NewRequest("GET", "http://"+cfg.ProverAddress+"/prove", nil)
 					resp, err := http.DefaultClient.Do(req)
@@ -101,13 +103,13 @@ func VerifHarness_C20_Native() {
 					done <- resp.StatusCode
 				}()
 			}
-			for k := 0; k < 3; k++ {
+			for k := 0; k < nb; k++ {
 				if c := <-done; c != 0 {
 					tally[fmt.Sprintf("get/%d", c)]++
 				}
 			}
-			if burst%4 == 3 {
-				time.Sleep(2 * time.Millisecond)
+			{
+				time.Sleep(time.Millisecond)
 				r3, err := http.Get("http://" + cfg.MetricsAddress + "/metrics")
 				if err == nil {
 					b3, _ := io.ReadAll(r3.Body)
@@ -116,6 +118,7 @@ func VerifHarness_C20_Native() {
 				}
 			}
 		}
+		zerolog.SetGlobalLevel(zerolog.Disabled)
 		verifAssert(gaugeOK, "the in-flight gauge reads zero whenever no request is in flight (after every burst of overlapping requests)")
 		var conns []net.Conn
 		for i := 0; i < 6; i++ {
